@@ -13,7 +13,7 @@ from ..result import Budget, digest, safe
 from ..shadow import Lockstep, Divergence, gen_history, norm_assocs
 from ..stream import corelang_spec
 from ..gen_lang import gen_language, Cfg
-from ..gen_model import HOSTILE
+from ..gen_model import HOSTILE, EXOTIC, EDGE_DEF_VALUES
 
 META = {
     'rule': ('models reached through valid API histories (id gaps after removals, explicit / 0 / negative ids, non-default '
@@ -30,7 +30,7 @@ META = {
     'quotas': {
         'quick': {'format:json': 80, 'format:yml': 100, 'format:yaml': 90, 'class:id-0': 100, 'class:negative-id': 50,
                   'class:id-gap': 100, 'class:nondefault-defense': 100, 'class:asset-extras': 50, 'class:assoc-extras': 40,
-                  'class:attackers>=2': 50, 'class:hostile-name': 100, 'handwritten:permuted': 100,
+                  'class:attackers>=2': 50, 'class:hostile-name': 100, 'class:exotic-characters': 60, 'class:defense-next-to-default': 30, 'handwritten:permuted': 100,
                   'handwritten:shorthand': 30, 'handwritten:scalar-target': 30, 'handwritten:id0-not-first': 30,
                   'resave-compared': 300, 'class:default-on-defense-off': 20,
                   'class:resave-same-path-after-entry-point-edit': 50},
@@ -40,7 +40,7 @@ META = {
     },
 }
 CASES = {'quick': 1500, 'thorough': 60000}
-SECONDS = {'quick': 60, 'thorough': 600}
+SECONDS = {'quick': 300, 'thorough': 600}
 EXTRAS = [{'position': {'x': 1, 'y': 2.5}}, {'note': 'n'}, {'k': [1, 2], 'flag': True}, {'color': 'red', 'n': None}]
 
 
@@ -171,7 +171,8 @@ def write_handwritten(d, path):
         if path.endswith('.json'):
             json.dump(d, f, indent=1)
         else:
-            yaml.safe_dump(d, f, sort_keys=False, allow_unicode=True)
+            # (with allow_unicode PyYAML writes U+0085 / U+2028 / U+2029 raw and its own loader folds them)
+            yaml.safe_dump(d, f, sort_keys=False, allow_unicode=not any(c in json.dumps(d, ensure_ascii=False) for c in '\x85\u2028\u2029'))
 
 
 def gen_case(rng, tier):
@@ -181,18 +182,18 @@ def gen_case(rng, tier):
     else:
         spec, src = gen_language(rng, Cfg(max_assets=5, max_assocs=5, max_depth=1, dup_assoc_names=0.4)), 'generated'
     lang = Lang(spec)
-    names = ['srv', 'db', 'n', 'n:1', 'a:b', None, None] + rng.sample(HOSTILE, 4)
+    names = ['srv', 'db', 'n', 'n:1', 'a:b', None, None] + rng.sample(HOSTILE, 4) + (rng.sample(EXOTIC, 3) if rng.random() < 0.4 else [])
     hist = gen_history(rng, lang, rng.randint(2, 40) if rng.random() < 0.96 else rng.randint(120, 250), invalid=0.0, names=names)
     extra_ops = []
     for _ in range(rng.randint(0, 3)):
-        extra_ops.append(['set_extras', ['live', rng.randrange(64)], rng.choice(EXTRAS)])
+        extra_ops.append(['set_extras', ['live', rng.randrange(64)], rng.choice(EXTRAS) if rng.random() < 0.7 else {'note': rng.choice(EXOTIC), rng.choice(EXOTIC): 1}])
     for _ in range(rng.randint(0, 3)):
         extra_ops.append(['set_assoc_extras', ['live', rng.randrange(64)], rng.choice(EXTRAS)])
     for _ in range(rng.randint(0, 8)):
-        extra_ops.append(['set_defense', ['live', rng.randrange(64)], rng.randrange(16), rng.choice([0.0, 1.0, 0.5, 0.25, 0.0])])
+        extra_ops.append(['set_defense', ['live', rng.randrange(64)], rng.randrange(16), rng.choice([0.0, 1.0, 0.5, 0.25, 0.0] + ([rng.choice(EDGE_DEF_VALUES)] * 2 if rng.random() < 0.3 else []))])
     hist = hist + extra_ops
     return {'spec': spec if src == 'generated' else 'corelang', 'history': hist,
-            'name': rng.choice(['m', 'My model', 'yes', 'null', '1e3', 'a: b', 'ünï', '#x']),
+            'name': rng.choice(['m', 'My model', 'yes', 'null', '1e3', 'a: b', 'ünï', '#x'] + ([rng.choice(EXOTIC)] * 2 if rng.random() < 0.3 else [])),
             'fmt': rng.choice(['json', 'yml', 'yml', 'yaml']), 'hw_seed': rng.randrange(10 ** 9)}
 
 
@@ -240,6 +241,10 @@ def _check_case(case, res, count=True):
             res.count('class:attackers>=2')
         if any(a.name in HOSTILE for a in sh.assets):
             res.count('class:hostile-name')
+        if any(a.name in EXOTIC for a in sh.assets) or case['name'] in EXOTIC:
+            res.count('class:exotic-characters')
+        if any(float(v) in EDGE_DEF_VALUES for a in sh.assets for k, v in a.defenses.items()):
+            res.count('class:defense-next-to-default')
         res.count('format:' + case['fmt'])
     want = shadow_view(ls)
     d = tempfile.mkdtemp(prefix='c07-', dir=os.getcwd())
